@@ -270,6 +270,53 @@ func TestLinkReal(t *testing.T) {
 						r.Emit("lrecv", "dir", "ab", "len", len(gb), "d", digest(gb))
 					}
 				}
+				// the patterns with contexts, through the byte-slice API of a context on each side: what a context's Recv
+				// returns is the application's to keep, like the socket's
+				if lp.name == "reqrep" || lp.name == "survey" {
+					ca, err1 := a.OpenContext()
+					cb, err2 := b.OpenContext()
+					if err1 != nil || err2 != nil {
+						panic(fmt.Sprint("OpenContext: ", err1, err2))
+					}
+					for _, c := range []mangos.Context{ca, cb} {
+						_ = c.SetOption(mangos.OptionRecvDeadline, 5*time.Second)
+						_ = c.SetOption(mangos.OptionSendDeadline, 5*time.Second)
+					}
+					_ = ca.SetOption(mangos.OptionSurveyTime, 5*time.Second)
+					for ci, n := range []int{0, 1, 40, 63, 64, 200, 1000} {
+						if n+lp.hdr > limit {
+							continue
+						}
+						body := payload(n, 7000+ci+k*1000)
+						r.Emit("lsend", "dir", "ab", "len", n, "d", digest(body))
+						if err := ca.Send(body); err != nil {
+							r.Emit("lerr", "dir", "ab", "op", "send", "r", err)
+							return
+						}
+						gb, err := cb.Recv()
+						if err != nil {
+							r.Emit("lerr", "dir", "ab", "op", "recv", "r", err)
+							return
+						}
+						r.Emit("lrecv", "dir", "ab", "len", len(gb), "d", digest(gb))
+						held = append(held, heldSlice{gb, digest(gb)})
+						back := payload(n, 7100+ci+k*1000)
+						r.Emit("lsend", "dir", "ba", "len", n, "d", digest(back))
+						if err := cb.Send(back); err != nil {
+							r.Emit("lerr", "dir", "ba", "op", "send", "r", err)
+							return
+						}
+						rb, err := ca.Recv()
+						if err != nil {
+							r.Emit("lerr", "dir", "ba", "op", "recv", "r", err)
+							return
+						}
+						r.Emit("lrecv", "dir", "ba", "len", len(rb), "d", digest(rb))
+						held = append(held, heldSlice{rb, digest(rb)})
+					}
+					_ = ca.Close()
+					_ = cb.Close()
+				}
 				for si, n := range linkSizes(rng, limit, lp.hdr) {
 					body := payload(n, si+k*1000)
 					// the size hint is only a hint: messages grown past it must arrive intact too
